@@ -480,14 +480,14 @@ def e2e(src, level):
         geom = pkg / "detectors" / "geometry"
         pyc = geom / "__pycache__"
 
-        def run(mode, cache_dir=None):
+        def run(mode, cache_dir=None, base=None):
             env = dict(os.environ)
             env.pop("NUMBA_CACHE_DIR", None)
             env.pop("PYTHONPATH", None)
             env["PYTHONDONTWRITEBYTECODE"] = "1"
             if cache_dir:
                 env["NUMBA_CACHE_DIR"] = str(cache_dir)
-            p = subprocess.run([sys.executable, str(root / "boot.py"), str(root / "pkg"), mode], env=env, cwd=str(root),
+            p = subprocess.run([sys.executable, str(root / "boot.py"), str(base or (root / "pkg")), mode], env=env, cwd=str(root),
                                capture_output=True, text=True, timeout=600)
             if p.returncode != 0:
                 raise RuntimeError(f"interpreter run '{mode}' failed: {p.stderr[-1500:]}")
@@ -555,6 +555,29 @@ def e2e(src, level):
                    f"history clear -> import -> {t}_geom.npz updated ({h1['bumped'][t]}) -> first use -> new process: lookup returns {got}; "
                    f"the cache created at first use is newer than the table but holds the table as it was at import")
         c = h2
+        # S: the same package installed as a tree of file-level symlinks (strict editable installs, stow / link farms): numba keeps the
+        #    caches beside the path the module was imported through; a table update must still be seen by the next interpreter
+        farm = root / "farm"
+        for d, _dirs, fs in os.walk(pkg):
+            if "__pycache__" in d:
+                continue
+            fd = farm / "pybes3" / Path(d).relative_to(pkg)
+            fd.mkdir(parents=True, exist_ok=True)
+            for fn in fs:
+                os.symlink(Path(d) / fn, fd / fn)
+        fpyc = farm / "pybes3" / "detectors" / "geometry" / "__pycache__"
+        s1 = run("use", base=farm)
+        expect(s1["file"].startswith(str(farm)), "e2e:link-farm-not-imported", s1.get("file", ""))
+        n_farm = len([q for q in fpyc.iterdir() if q.suffix in (".nbi", ".nbc")]) if fpyc.is_dir() else 0
+        news = bump("mdc_geom.npz", "east_x")
+        s2 = run("use", base=farm)
+        expect(s2["mdc"][0] == news, "e2e:stale-value-after-table-update:link-farm-install",
+               f"package imported through a tree of per-file symlinks ({n_farm} cache files beside the links): after mdc_geom.npz changed "
+               f"(east_x[0] -> {news}) a fresh interpreter returns mdc_gid_to_east_x(0) = {s2['mdc'][0]} (before the update: {s1['mdc'][0]})")
+        run("clear", base=farm)
+        left = sorted(q.name for q in fpyc.iterdir() if q.suffix in (".nbi", ".nbc")) if fpyc.is_dir() else []
+        expect(left == [], "e2e:forced-clear-leaves-files:link-farm-install", f"left after clear_numba_cache(): {left}")
+        c = run("use")
         if level == "full":
             # D/E: interrupted clean-up (after 1 removal), then retry
             newe = bump("emc_geom.npz", "center_x")
